@@ -1,6 +1,7 @@
 package eng
 
 import (
+	"strings"
 	"fmt"
 	"go/constant"
 	"go/token"
@@ -217,6 +218,12 @@ func (e *Engine) step(st *State, fr *Frame, in ssa.Instruction, onReturn func(*S
 		var args []Val
 		for _, a := range x.Call.Args {
 			args = append(args, e.val(st, fr, a))
+		}
+		if f := x.Call.StaticCallee(); f != nil && len(args) > 0 && strings.HasPrefix(f.String(), "(*sync.") {
+			// deferred Unlock of a mutex held through a pointer field: resolve the field now
+			if p, ok := args[0].(VPtr); ok {
+				args[0] = e.mutexThroughField(st, fr, x.Call.Args[0], p)
+			}
 		}
 		d := deferred{call: &x.Call, args: args}
 		if !x.Call.IsInvoke() {
